@@ -382,6 +382,23 @@ pub trait VmType {
     /// # Safety
     /// vm is non-null and valid
     fn to_vm(self, vm: &mut VmGreenThread);
+
+    /// Read `Self` as a member of a tuple. The VM erases `void` members, so `()` reads nothing.
+    fn tuple_member_from_vm(vm: &mut VmGreenThread) -> Self
+    where
+        Self: Sized,
+    {
+        Self::from_vm(vm)
+    }
+
+    /// Push `self` as a member of a tuple. Returns the number of slots pushed (0 for `()`).
+    fn tuple_member_to_vm(self, vm: &mut VmGreenThread) -> usize
+    where
+        Self: Sized,
+    {
+        self.to_vm(vm);
+        1
+    }
 }
 
 impl VmType for AbraInt {
@@ -434,6 +451,12 @@ impl VmType for () {
 
     fn to_vm(self, vm: &mut VmGreenThread) {
         vm.push_int(0);
+    }
+
+    fn tuple_member_from_vm(_vm: &mut VmGreenThread) -> Self {}
+
+    fn tuple_member_to_vm(self, _vm: &mut VmGreenThread) -> usize {
+        0
     }
 }
 
@@ -538,12 +561,6 @@ where
     }
 }
 
-macro_rules! replace_expr {
-    ($t:tt, $e:expr_2021) => {
-        $e
-    };
-}
-
 macro_rules! tuple_impls {
     ( $( $name:ident ),+ $(,)? ) => {
         impl<$($name: VmType),+ > VmType for ( $($name,)+ ) {
@@ -552,17 +569,16 @@ macro_rules! tuple_impls {
                 vm.deconstruct_struct();
                 // Pop values in normal order.
                 #[allow(non_snake_case)]
-                let ($($name,)+) = ($( $name::from_vm(vm), )+);
+                let ($($name,)+) = ($( $name::tuple_member_from_vm(vm), )+);
                 ($($name,)+)
             }
             fn to_vm(self, vm: &mut VmGreenThread) {
                 // Destructure the tuple.
                 #[allow(non_snake_case)]
                 let ($($name,)+) = self;
-                // Push each element onto the VM in order.
-                $( $name.to_vm(vm); )+
-                // Count the number of elements in the tuple.
-                let count: usize = [$( replace_expr!($name, 1) ),+].len();
+                // Push each element onto the VM in order, counting the slots pushed
+                // (`void` members take no slot in the VM's tuple).
+                let count: usize = 0 $( + $name.tuple_member_to_vm(vm) )+;
                 // Reconstruct the tuple on the VM.
                 vm.construct_struct(count);
             }
